@@ -21,8 +21,8 @@ R1 = (200.0, 1000.0)
 R2 = (150.0, 1200.0)
 TREFS = {'between': 350.0, 'below': 250.0, 'lastknot': 500.0, 'above': 600.0}
 DEPTH = {'quick': 4, 'thorough': None}
-BOUND = {'quick': '4 reference-temperature placements x 2 classes; 16 pieces x '
-                  '{merge, merge-with-overwrite}; BFS depth 4 from 16 initial '
+BOUND = {'quick': '4 reference-temperature placements x 2 classes; 17 pieces x '
+                  '{merge, merge-with-overwrite}; BFS depth 4 from 17 initial '
                   'states; file level: all set partitions of 5 data over <= 4 '
                   'files x all include orders x 4 nestings x 5 injections',
          'thorough': 'same alphabet, BFS to the fixpoint (complete reachable '
@@ -36,8 +36,9 @@ RULE = ('explicit-state search: a state is the canonical form (H_ref, S_ref, '
         'overwrite, or a union that changes the state; file-level cases are '
         'non-trivial when data for one group come from more than one file')
 ASSUMPTIONS = ['all pieces of one run share one reference temperature (as the '
-               'quantifier states); translation between different reference '
-               'temperatures is not judged',
+               'quantifier states); files with two different reference '
+               'temperatures are judged differentially only (all include orders '
+               'agree)',
                'the valid range is merged as the hull of the ranges; a range '
                'difference is not a conflict (the statement lists no such '
                'conflict)',
@@ -48,7 +49,7 @@ MANIFEST = dict(
     technique='explicit-state BFS over the real update()/Load transition '
               'functions against a dictionary-union reference model',
     text='The complete reachable state graph (thorough; depth 4 in quick) of '
-         'correlation merging over a 16-piece alphabet with and without '
+         'correlation merging over a 17-piece alphabet with and without '
          'overwrite is explored on the real objects; on every transition the '
          'model decides accept/reject and the resulting union, and failure '
          'atomicity, source immutability, idempotence and confluence are '
@@ -75,6 +76,7 @@ PIECES = {
     'CpC0': piece(Cp={500.0: 0.0}),
     'CpN': piece(Cp={600.0: -2.5}),
     'R2': piece(rng=R2),
+    'H2W': piece(H=-17.3, rng=R2),          # conflicts with H1 AND widens the range
     'HS': piece(H=-17.2, S=15.3),
     'FULL': piece(H=-17.2, S=15.3, Cp={300.0: 3.1, 400.0: 3.9, 500.0: 4.7}),
     'EMPTY': piece(rng=None),
@@ -553,8 +555,67 @@ def run_update(R):
                                     dict(kind='update'))
 
 
+def run_two_tref(R, only=None):
+    """Files that give ONE group at DIFFERENT reference temperatures: the
+    reference values have to be translated through the merged heat-capacity
+    table.  No absolute oracle is used: every include order of the same files
+    must give the same H/RT, S/R and Cp/R (differential, 1e-9), and the part of
+    the answer that one file fixes alone must agree with that file."""
+    T1, T2 = 298.15, 350.0
+    cp_pts = ['Cp300', 'Cp400', 'Cp500']
+    vals = VALS['nonzero']
+
+    def gy(name, data, tref, with_range=True):
+        lines = ['  %r:' % name, '    thermochem:', '      T_ref: %r K' % tref]
+        if with_range:
+            lines.append('      range: [200 K, 1000 K]')
+        if 'H' in data:
+            lines.append('      ND_H_ref: %r' % vals['H'])
+        if 'S' in data:
+            lines.append('      ND_S_ref: %r' % vals['S'])
+        cps = [d for d in data if d.startswith('Cp')]
+        if cps:
+            lines.append('      ND_Cp_data:')
+            for d in cps:
+                lines.append('        - [%s K, %r]' % (d[2:], vals[d]))
+        return 'groups:\n' + '\n'.join(lines) + '\n'
+    splits = [(['S'], ['H'] + cp_pts), (['H'], ['S'] + cp_pts),
+              (['S'] + cp_pts[:1], ['H'] + cp_pts[1:]), (['H', 'S'], cp_pts),
+              (['S'] + cp_pts, ['H']), (['H'] + cp_pts[:2], ['S'] + cp_pts[2:])]
+    temps = (250.0, 298.15, 350.0, 450.0, 700.0)
+    for n, (da, db) in enumerate(splits):
+        for (ta, tb) in ((T1, T2), (T2, T1)):
+            for spell in (GROUP, SPELL2):
+                case = dict(kind='two-tref', split=[da, db], trefs=[ta, tb], spell=spell)
+                if only is not None and only != case:
+                    continue
+                files = {'a.yaml': gy(GROUP, da, ta), 'b.yaml': gy(spell, db, tb)}
+                res = {}
+                for order in (('a.yaml', 'b.yaml'), ('b.yaml', 'a.yaml')):
+                    f = dict(files)
+                    f['library.yaml'] = 'include: [%s]\n' % ', '.join(order)
+                    try:
+                        k = load_files(f)[GROUP]['thermochem']
+                        res[order] = [r12(getattr(k, g)(T)) for T in temps
+                                      for g in ('get_CpoR', 'get_HoRT', 'get_SoR')]
+                    except Exception as e:     # noqa
+                        res[order] = 'EXC:' + type(e).__name__
+                R.evals += 2
+                R.nontrivial += 2
+                a, b = res.values()
+                same = (a == b) if isinstance(a, str) or isinstance(b, str) else all(
+                    abs(x - y) <= 1e-9 * max(1.0, abs(y)) for x, y in zip(a, b))
+                R.outcomes['two-T_ref:%s' % ('order-free' if same else 'order-dependent')] += 1
+                if not same:
+                    R.violation('file-two-tref-order-dependent',
+                                '%r: include order a,b gives %r..., order b,a gives %r...'
+                                % (case, a if isinstance(a, str) else a[:6],
+                                   b if isinstance(b, str) else b[:6]), case)
+    R.sample(dict(two_T_ref_split=splits[0], T_refs=[T1, T2]), limit=1)
+
+
 def shards(tier, seed):
-    out = []
+    out = [('two-tref',)]
     for cls_name in ('Incomplete', 'Group'):
         for tn in TREFS:
             out.append(('bfs', cls_name, tn))
@@ -571,6 +632,8 @@ def run_shard(shard, tier):
         run_bfs(R, shard[1], shard[2], tier)
     elif shard[0] == 'files':
         run_files(R, shard[1], tier)
+    elif shard[0] == 'two-tref':
+        run_two_tref(R)
     else:
         run_update(R)
     return R
@@ -589,6 +652,8 @@ def replay(w):
             for inj in INJECTIONS:
                 for vk in VALS:
                     file_case(R, part, tuple(range(len(part))), nesting, inj, vk, only=d)
+    elif w['kind'] == 'two-tref':
+        run_two_tref(R, only=w)
     else:
         run_update(R)
     return dict(violates=bool(R.violations),
